@@ -77,6 +77,35 @@ inline std::vector<Edge> edges_of(const Paths& pp, bool closed = true) {
   }
   return e;
 }
+// mixed closed / open version: is_closed[k] tells whether path k has a closing edge
+inline bool general_position_mixed(const Paths& all, const std::vector<char>& is_closed, i64 R = 3) {
+  std::vector<Edge> E;
+  for (size_t k = 0; k < all.size(); ++k) {
+    size_t n = all[k].size(); if (n < 2) continue;
+    size_t m = is_closed[k] ? n : n - 1;
+    for (size_t i = 0; i < m; ++i) E.push_back({all[k][i], all[k][(i + 1) % n], (int)k, (int)i});
+  }
+  for (size_t k = 0; k < all.size(); ++k)
+    for (size_t i = 0; i < all[k].size(); ++i) {
+      const P& v = all[k][i]; size_t n = all[k].size();
+      for (auto& e : E) {
+        bool incident = (e.path == (int)k) && ((size_t)e.idx == i || (size_t)((e.idx + 1) % n) == i);
+        if (incident) continue;
+        if (!dist_ge(v, e.a, e.b, R)) return false;
+      }
+    }
+  for (size_t i = 0; i < E.size(); ++i)
+    for (size_t j = i + 1; j < E.size(); ++j) {
+      if (!proper_cross(E[i].a, E[i].b, E[j].a, E[j].b)) continue;
+      ld x, y; line_isect(E[i].a, E[i].b, E[j].a, E[j].b, x, y);
+      for (size_t k = 0; k < E.size(); ++k) {
+        if (k == i || k == j) continue;
+        ld d = dist_pt_seg_ld(x, y, (ld)E[k].a.x, (ld)E[k].a.y, (ld)E[k].b.x, (ld)E[k].b.y);
+        if (d < (ld)R + 1e-6L) return false;
+      }
+    }
+  return true;
+}
 inline bool general_position(const Paths& all, i64 R = 3, bool closed = true) {
   std::vector<Edge> E = edges_of(all, closed);
   // vertices against edges they are not an end point of
